@@ -37,7 +37,7 @@ def one_world(chk, rnd, quick, wn, cfgsel):
     # names that only exist as hidden / unexported / promoted fields, addressed in every plausible way
     for p in (["Hidden"], ["JHidden"], ["private"], ["Promoted"], ["hiddenEmb"], ["hiddenEmb", "Promoted"], ["Inner", "Secret"], ["Inner", "low"],
               ["PInner", "Secret"], ["List", "0", "Secret"], ["M", "a", "Secret"], ["M", "b", "sec"], ["jhid"], ["Inner", "sec"], ["t", "Hidden"],
-              ["l", "0", "Hidden"], ["pl", "0", "Hidden"], ["m", "k", "Hidden"], ["t", "Inner", "Secret"], ["EmbField"], ["Embedded", "EmbField"]):
+              ["privmap", "zz"], ["privmap", "priv"], ["privany", "k"], ["privany", "zz"], ["t", "privmap", "zz"], ["private", "zz"], ["l", "0", "Hidden"], ["pl", "0", "Hidden"], ["m", "k", "Hidden"], ["t", "Inner", "Secret"], ["EmbField"], ["Embedded", "EmbField"]):
         for op in ("==", "!=", "in", "notin", "matches", "notmatches"):
             for l in SECRETS[:6]:
                 atoms.append(match(p, op, l))
